@@ -34,6 +34,8 @@ def run(ctx):
         keys = list(dict.fromkeys(rng.sample(gen.HOSTILE_KEYS, nkeys // 2) +
                                   [gen.rand_unicode_key(rng) for _ in range(nkeys - nkeys // 2)]))
         contents = [gen.data(rng, gen.size(rng)) for _ in range(rng.randint(3, 5))]
+        if h % 3 == 0:
+            contents[0] = b""        # empty content is content too (its address exists, keys point at it)
         contents = list(dict.fromkeys(contents))
         algos = [hist.sha_algo(rng) for _ in contents]
         sris = [ref.sri(a, c) for a, c in zip(algos, contents)]
